@@ -23,6 +23,8 @@ EXTENDS Integers, Sequences, FiniteSets
 
 CONSTANTS Keys,      \* a finite set of naturals 1..n
           Vals,      \* a finite set of positive naturals
+          MapKeys,   \* keys with map semantics: value None = key absent (Delete actions);
+                     \* for the other keys None is an ordinary value (TeX variables)
           MaxDepth,  \* bound on open groups (state constraint of the model)
           Bug        \* "" or the name of a seeded design mutant (negative controls)
 
@@ -59,7 +61,7 @@ IEnd(s) == LET n == Len(s.sv) IN
 ILocal(s, k, v) ==
   LET n == Len(s.sv) IN
   IF n = 0 THEN [iv |-> [s.iv EXCEPT ![k] = v], sv |-> s.sv]
-  ELSE IF s.iv[k] = None
+  ELSE IF s.iv[k] = None /\ k \in MapKeys
        THEN \* (None, Some(group)): group.insert(key, Delete)
             [iv |-> [s.iv EXCEPT ![k] = v], sv |-> [s.sv EXCEPT ![n][k] = Del]]
        ELSE \* (Some, Some(group)): save the old value only if the entry is vacant
@@ -99,6 +101,14 @@ IRebuild(s) ==
       base == InsertAll([iv |-> EmptyVal, sv |-> <<>>], Keys, g0,
                         [k \in Keys |-> g0[k] # None /\ s.iv[k] # None])
   IN ReplayGroups(base, s, 1)
+
+(* Rebuild only the keys in ks (the others are carried over unchanged):    *)
+(* used by TexGroups, where only command-map keys are serialised through   *)
+(* iter_all.  Keys are independent in the replay, so this is a projection. *)
+IRebuildKeys(s, ks) ==
+  LET r == IRebuild(s) IN
+  [iv |-> [k \in Keys |-> IF k \in ks THEN r.iv[k] ELSE s.iv[k]],
+   sv |-> [i \in 1..Len(s.sv) |-> [k \in Keys |-> IF k \in ks THEN r.sv[i][k] ELSE s.sv[i][k]]]]
 
 ---------------------------------------------------------------------------
 (* Actions: both layers move together.                                     *)
